@@ -3,7 +3,7 @@
 use crate::buf::Buf;
 use crate::val::*;
 use crate::world::*;
-use crate::{Address, Bytes, BytesN, String, Symbol, Vec, BCAP, ECAP, SCAP};
+use crate::{Address, Bytes, BytesN, String, Symbol, Vec, BCAP, ECAP, LONGB, SCAP};
 
 pub const NPRINC: usize = 8;
 static mut AUTH: [bool; NPRINC] = [false; NPRINC];
@@ -143,6 +143,30 @@ pub fn unhandled_call(what: &'static str) -> ! {
 }
 
 /// `try_` client calls and `try_invoke_contract`: whether the callee fails is a symbolic choice.
+pub fn nondet_u64() -> u64 {
+    #[cfg(kani)]
+    {
+        kani::any()
+    }
+    #[cfg(not(kani))]
+    {
+        0
+    }
+}
+pub fn nondet_u8() -> u8 {
+    #[cfg(kani)]
+    {
+        kani::any()
+    }
+    #[cfg(not(kani))]
+    {
+        0
+    }
+}
+pub fn assume(_c: bool) {
+    #[cfg(kani)]
+    kani::assume(_c);
+}
 pub fn nondet_callee_failure() -> bool {
     #[cfg(kani)]
     {
@@ -360,7 +384,17 @@ pub mod any {
             i += 1;
         }
         b.len = n;
+        kani::assume(LONGB == 0 || n < 1 || b.d[0] != crate::types::LONG_MARK[0]);
         Bytes(b)
+    }
+    /// abstract long byte string: any length in (BCAP, u32::MAX], opaque content (profile switch LONGB=1)
+    pub fn bytes_long() -> Bytes {
+        if LONGB == 0 {
+            crate::mfail!("MODEL:long byte strings are not enabled in this profile");
+        }
+        let len: u32 = kani::any();
+        kani::assume(len as usize > BCAP);
+        Bytes::make_long(len, kani::any())
     }
     /// byte string of symbolic length <= maxlen
     pub fn bytes(maxlen: usize) -> Bytes {
@@ -378,6 +412,7 @@ pub mod any {
             i += 1;
         }
         b.len = n;
+        kani::assume(LONGB == 0 || n < 1 || b.d[0] != crate::types::LONG_MARK[0]);
         Bytes(b)
     }
     /// principal with id in 1..=max
